@@ -787,11 +787,30 @@ func (b *builder) branch(bs *BranchSpec) *compose.GraphBranch {
 		}
 		return chosen
 	}
+	// half of the multi-branch conditions spell their answer out: every target is in the map, the ones
+	// not chosen with the value false; half of the prefix-reading stream conditions return without
+	// closing their reader (the copy is the framework's, which has to close it)
+	spell := mon.HashStr(bs.ID+"|spell")%2 == 0
+	leaveOpen := mon.HashStr(bs.ID+"|open")%2 == 0
+	answer := func(chosen []string) map[string]bool {
+		m := map[string]bool{}
+		if spell {
+			for _, t := range bs.Targets {
+				m[t] = false
+			}
+		}
+		for _, t := range chosen {
+			m[t] = true
+		}
+		return m
+	}
 	readIn := func(sr *schema.StreamReader[V]) (V, error) {
 		if bs.Prefix {
-			// read only the first chunk, then close: the decision does not depend on the input
+			// read only the first chunk: the decision does not depend on the input
 			_, err := sr.Recv()
-			sr.Close()
+			if !leaveOpen {
+				sr.Close()
+			}
 			if err != nil && err != io.EOF {
 				return nil, err
 			}
@@ -809,11 +828,7 @@ func (b *builder) branch(bs *BranchSpec) *compose.GraphBranch {
 			if err != nil {
 				return nil, err
 			}
-			m := map[string]bool{}
-			for _, t := range decide(ctx, in) {
-				m[t] = true
-			}
-			return m, nil
+			return answer(decide(ctx, in)), nil
 		}, ends)
 	case bs.Stream:
 		return compose.NewStreamGraphBranch(func(ctx context.Context, sr *schema.StreamReader[V]) (string, error) {
@@ -831,15 +846,11 @@ func (b *builder) branch(bs *BranchSpec) *compose.GraphBranch {
 			if err := condErr(ctx); err != nil {
 				return nil, err
 			}
-			m := map[string]bool{}
 			var x any = in
 			if bs.Prefix {
 				x = nil
 			}
-			for _, t := range decide(ctx, x) {
-				m[t] = true
-			}
-			return m, nil
+			return answer(decide(ctx, x)), nil
 		}, ends)
 	default:
 		return compose.NewGraphBranch(func(ctx context.Context, in V) (string, error) {
